@@ -1169,9 +1169,10 @@ func run(c *lib.Ctx) {
 		m.compareOrders(s)
 	}
 	m.concurrentDirect()
+	m.designatedFallbacks()
 
 	c.Exhaustive(false)
-	c.Assume("designated FallbackSite sites cannot be produced from a Casketfile with the standard directives; only the built-in catch-all spellings ('', 0.0.0.0, [::]) are exercised")
+	c.Assume("designated FallbackSite sites cannot be produced from a Casketfile with the standard directives; they are exercised on servers built with httpserver.NewServer (five listeners in one process, three build orders), the built-in catch-all spellings ('', 0.0.0.0, [::]) over real sockets")
 	c.Assume("the request's path is the percent-decoded path of the request-target; percent-encoded unreserved characters are equivalent to the literal (RFC 3986 2.3); only for an encoded slash (%2F) is the raw reading accepted as well")
 	c.Assume("for absolute-form request-targets either the URI host or the Host header is accepted as the request's Host")
 	c.Assume("when different catch-all spellings coexist on a listener any of them may answer (the statement does not rank them)")
